@@ -708,786 +708,4 @@ theorem lnot_correct {t : IntTy} (ht : t.Arith) {a v : Int} (ha : InRange t a)
 
 end Part2c
 
-section Part2d
-variable {F : Type} (ops : FloatOps F)
-
-theorem castInt_ofI_bool (z : Int) : castInt 1 false (ofI z) = repr64 IntTy.uchar (wrap IntTy.uchar z) :=
-  cast_ofI (t := IntTy.uchar) (by decide) z
-
-theorem castConst_int_int (lsz : Nat) (ls : Bool) (tsz : Nat) (ts : Bool) (l : Nat) :
-    castConst ops (.int lsz ls) (.int tsz ts) l = .const (.int tsz ts) (castInt tsz ts l) := rfl
-
-theorem cast_correct_arith {f t : IntTy} (ht : t.Arith) (v : Int) :
-    castConst ops (tyOf f) (tyOf t) (repr64 f v) = .const (tyOf t) (repr64 t (wrap t v)) := by
-  show castConst ops (.int _ _) (tyOf t) _ = _
-  rw [tyOf_arith ht, castConst_int_int, ← cast_ofI ht v]; rfl
-
-/-- what the code does for a conversion to `_Bool`: it keeps the low 8 bits. -/
-theorem cast_to_bool_model {f : IntTy} (v : Int) :
-    castConst ops (tyOf f) (tyOf IntTy.bool) (repr64 f v)
-      = .const (tyOf IntTy.bool) (repr64 IntTy.uchar (wrap IntTy.uchar v)) := by
-  simp only [tyOf, castConst_int_int]
-  rw [← castInt_ofI_bool v]; rfl
-
-theorem repr64_eq_zero' {t : IntTy} (h : t.Valid) {b : Int} (hb : InRange t b) :
-    repr64 t b = 0 ↔ b = 0 := by
-  rcases h with h | h
-  · subst h; simp [InRange, minVal, maxVal, IntTy.bool] at hb; simp only [repr64]; omega
-  · exact repr64_eq_zero h hb
-
-theorem istrue_int {t : IntTy} (h : t.Valid) {a : Int} (ha : InRange t a) :
-    istrue ops (tyOf t) (repr64 t a) = decide (a ≠ 0) := by
-  simp only [istrue, tyOf, Ty.isFlt, Bool.false_eq_true, if_false, ne_eq, repr64_eq_zero' h ha]
-
-theorem b2n_le_one (c : Bool) : b2n c = 0 ∨ b2n c = 1 := by cases c <;> simp [b2n]
-
-theorem repr64_b2i (c : Bool) : repr64 IntTy.int (b2i c) = b2n c := by cases c <;> decide
-
-/-- the guard of `eval` covers every case in which `binary` would execute an undefined host
-operation: integer operands are never folded into host UB, for any operands and any sizes. -/
-theorem foldBin_no_hostUB (op : BinOp) (hop : op ≠ .lor ∧ op ≠ .land) (sz : Nat) (sg : Bool)
-    (l r : Nat) (ty : Ty) : foldBin ops op (.int sz sg) l r ty ≠ .hostUB := by
-  simp only [foldBin]
-  split
-  · simp
-  · rename_i hg
-    cases op <;> simp only [binary, binaryRaw, Ty.isSigned, Option.map_some] <;> try simp
-    case lor => exact hop.1 rfl
-    case land => exact hop.2 rfl
-    case div =>
-      simp only [divGuard, Ty.isInt, Ty.isSigned] at hg
-      cases sg <;> simp at hg ⊢
-      · rw [if_neg hg]; simp
-      · rw [if_neg]
-        · simp
-        · rintro (h | ⟨h1, h2⟩)
-          · exact hg.1 h
-          · exact hg.2 h2 h1
-    case mod =>
-      simp only [divGuard, Ty.isInt, Ty.isSigned] at hg
-      cases sg <;> simp at hg ⊢
-      · rw [if_neg hg]; simp
-      · rw [if_neg]
-        · simp
-        · rintro (h | ⟨h1, h2⟩)
-          · exact hg.1 h
-          · exact hg.2 h2 h1
-    case shr => cases sg <;> simp
-
-theorem foldBin_div_zero (op : BinOp) (hop : op = .div ∨ op = .mod) (sz : Nat) (sg : Bool) (l : Nat)
-    (ty : Ty) : foldBin ops op (.int sz sg) l 0 ty = .unfolded := by
-  simp only [foldBin, divGuard, Ty.isInt]
-  rw [if_pos]; exact ⟨hop, by simp⟩
-
-theorem foldBin_min_neg_one (op : BinOp) (hop : op = .div ∨ op = .mod) (sz : Nat) (ty : Ty) :
-    foldBin ops op (.int sz true) (2 ^ 63) (W - 1) ty = .unfolded := by
-  simp only [foldBin]
-  rw [if_pos]
-  refine ⟨hop, ?_⟩
-  simp only [divGuard, Ty.isInt, Ty.isSigned]
-  decide
-
-theorem foldBin_shift_total (op : BinOp) (hop : op = .shl ∨ op = .shr) (sz : Nat) (sg : Bool)
-    (l r : Nat) (ty : Ty) : ∃ u, foldBin ops op (.int sz sg) l r ty = .folded u := by
-  rcases hop with rfl | rfl
-  · simp [foldBin, binary, binaryRaw]
-  · cases sg <;> simp [foldBin, binary, binaryRaw, Ty.isSigned]
-
-end Part2d
-
-/-! ## Part 3: the invariant and the induction over `eval` -/
-
-def Ty.Wf : Ty → Prop
-  | .int sz _ => sz = 1 ∨ sz = 2 ∨ sz = 4 ∨ sz = 8
-  | _ => True
-
-/-- the C type behind a model type `(size, signed)` (a 1-byte unsigned type is read as
-`unsigned char`; eval.c cannot tell `_Bool` from it). -/
-def ityOf (sz : Nat) (sg : Bool) : IntTy := ⟨sz * 8, sg⟩
-
-/-- "the constant `u` of type `ty` is `repr64 t v` for some `v ∈ range t`". -/
-def IsCanon : Ty → Nat → Prop
-  | .int sz sg, u => ∃ v, InRange (ityOf sz sg) v ∧ u = repr64 (ityOf sz sg) v
-  | _, _ => True
-
-/-- the all-ones constant that `unaryexpr` creates for `~e` (`mkconstexpr(e->type, -1)`). -/
-def MaskLeaf (e : Expr) : Prop := ∃ t, e = .const t (W - 1)
-
-/-- Every integer constant node of type `t` carries `repr64 t v` for some `v ∈ range t` (and every
-integer type has a real size).  Only exception: the right operand of `^` may be the all-ones
-mask of `~`.  `Expr.bad` (host UB) never satisfies the invariant. -/
-def Canon : Expr → Prop
-  | .const t u => t.Wf ∧ IsCanon t u
-  | .enumc t u => t.Wf ∧ IsCanon t u
-  | .obj _ _ | .str _ _ | .compound _ _ _ | .opaque _ _ => True
-  | .unary _ t b => t.Wf ∧ Canon b
-  | .cast t b => t.Wf ∧ Canon b
-  | .binary op t l r => t.Wf ∧ Canon l ∧ (Canon r ∨ (op = .bxor ∧ MaskLeaf r))
-  | .cond t c a b => t.Wf ∧ Canon c ∧ Canon a ∧ Canon b
-  | .error => True
-  | .bad => False
-
-theorem ityOf_arith {sz : Nat} {sg : Bool} (h : (Ty.int sz sg).Wf) : (ityOf sz sg).Arith := by
-  simp only [Ty.Wf] at h
-  rcases h with h | h | h | h <;> subst h <;> simp [ityOf, IntTy.Arith]
-
-theorem tyOf_ityOf {sz : Nat} {sg : Bool} (h : (Ty.int sz sg).Wf) : tyOf (ityOf sz sg) = .int sz sg := by
-  simp only [Ty.Wf] at h
-  rcases h with h | h | h | h <;> subst h <;> simp [tyOf, ityOf]
-
-theorem ityOf_bits_div {sz : Nat} {sg : Bool} : (ityOf sz sg).bits / 8 = sz := by
-  simp [ityOf]
-
-section
-variable {F : Type} (ops : FloatOps F)
-
-theorem cast_isCanon {t : Ty} (h : t.Wf) (x : Nat) : IsCanon t (cast ops t x) := by
-  cases t with
-  | int sz sg =>
-    have ha := ityOf_arith h
-    refine ⟨wrap (ityOf sz sg) (x : Int), wrap_inRange (Or.inr ha) _, ?_⟩
-    have := castInt_nat ha x
-    rw [ityOf_bits_div] at this
-    exact this
-  | _ => trivial
-
-theorem isCanon_b2n {t : Ty} (h : t.Wf) (c : Bool) : IsCanon t (b2n c) := by
-  cases t with
-  | int sz sg =>
-    refine ⟨b2i c, ?_, ?_⟩
-    · simp only [Ty.Wf] at h
-      rcases h with h | h | h | h <;> subst h <;> cases sg <;> cases c <;>
-        simp [InRange, minVal, maxVal, ityOf, b2i]
-    · cases c <;> simp [b2n, b2i, repr64]
-  | _ => trivial
-
-theorem castConst_canon {lty t : Ty} (h : t.Wf) (l : Nat) : Canon (castConst ops lty t l) := by
-  unfold castConst
-  split
-  · exact ⟨h, cast_isCanon ops h _⟩
-  · dsimp only
-    split
-    · split
-      · exact ⟨h, cast_isCanon ops h _⟩
-      · trivial
-    · split
-      · exact ⟨h, cast_isCanon ops h _⟩
-      · trivial
-  · exact ⟨h, cast_isCanon ops h _⟩
-
-theorem binary_isCanon {op : BinOp} {lty ty : Ty} {l r u : Nat} (h : ty.Wf)
-    (hb : binary ops op lty l r ty = some u) : IsCanon ty u := by
-  simp only [binary] at hb
-  cases hr : binaryRaw ops op lty l r with
-  | none => rw [hr] at hb; cases hb
-  | some x => rw [hr] at hb; cases hb; exact cast_isCanon ops h x
-
-theorem evalAddSub_canon {op : BinOp} {ty : Ty} {l r : Expr}
-    (ht : ty.Wf) (hl : Canon l) (hr : Canon r) :
-    evalAddSub ops op ty l r = .bad ∨ Canon (evalAddSub ops op ty l r) := by
-  have hdef : Canon (.binary op ty l r) := ⟨ht, hl, Or.inl hr⟩
-  unfold evalAddSub
-  simp only
-  split
-  · rename_i rty ru hr1
-    split
-    · rename_i lty lu hl1
-      split
-      · rename_i u hb; exact Or.inr ⟨ht, binary_isCanon ops ht hb⟩
-      · exact Or.inl rfl
-    · rename_i ll c1ty c1 hl1
-      split
-      · exact Or.inl rfl
-      · rename_i hsw
-        have hr1c : Canon (Expr.const rty ru) := by
-          rw [← hr1]; split <;> assumption
-        have hl1c : Canon (Expr.binary .add .ptr ll (.const c1ty c1)) := by
-          rw [← hl1]; split <;> assumption
-        split
-        · rename_i u hb
-          exact Or.inr ⟨ht, hl1c.2.1, Or.inl ⟨hr1c.1, binary_isCanon ops hr1c.1 hb⟩⟩
-        · exact Or.inl rfl
-    · exact Or.inr hdef
-  · exact Or.inr hdef
-
-theorem foldBin_isCanon {op : BinOp} {lty ty : Ty} {l r u : Nat} (h : ty.Wf)
-    (hb : foldBin ops op lty l r ty = .folded u) : IsCanon ty u := by
-  simp only [foldBin] at hb
-  split at hb
-  · cases hb
-  · split at hb
-    · rename_i u' hbin; cases hb; exact binary_isCanon ops h hbin
-    · cases hb
-
-theorem canon_of_isFail {e : Expr} (h : e.isFail = true) : e = .bad ∨ Canon e := by
-  cases e <;> simp [Expr.isFail] at h
-  · exact Or.inr trivial
-  · exact Or.inl rfl
-
-theorem eval_maskLeaf {e : Expr} (h : MaskLeaf e) : eval ops e = e := by
-  obtain ⟨t, rfl⟩ := h; simp [eval]
-
-theorem eval_canon (e : Expr) : Canon e → eval ops e = .bad ∨ Canon (eval ops e) := by
-  induction e with
-  | const t u => intro h; exact Or.inr (by simpa [eval] using h)
-  | enumc t u => intro h; exact Or.inr (by simpa [eval, Canon] using h)
-  | obj t n => intro _; exact Or.inr (by simp [eval, Canon])
-  | str t i => intro _; exact Or.inr (by simp [eval, Canon])
-  | compound t st i => intro _; refine Or.inr ?_; simp only [eval]; split <;> trivial
-  | «opaque» t i => intro _; exact Or.inr (by simp [eval, Canon])
-  | cond t c a b _ _ _ => intro h; exact Or.inr (by simpa [eval] using h)
-  | error => intro _; exact Or.inr (by simp [eval, Canon])
-  | bad => intro h; exact absurd h (by simp [Canon])
-  | unary op t base ih =>
-    intro h
-    obtain ⟨ht, hb⟩ := h
-    have ihb := ih hb
-    simp only [eval]
-    split
-    · rename_i hf; exact canon_of_isFail hf
-    · rename_i hf
-      rcases ihb with ihb | ihb
-      · rw [ihb] at hf; simp [Expr.isFail] at hf
-      · cases op
-        · -- addr
-          dsimp only
-          split
-          · rename_i b hl; rw [hl] at ihb; exact Or.inr ihb.2
-          · exact Or.inr ⟨ht, trivial⟩
-          · exact Or.inr ⟨ht, ihb⟩
-        · exact Or.inr ⟨ht, ihb⟩
-        · dsimp only
-          split
-          · exact Or.inr ⟨ht, cast_isCanon ops ht _⟩
-          · exact Or.inr ⟨ht, ihb⟩
-  | cast t base ih =>
-    intro h
-    obtain ⟨ht, hb⟩ := h
-    have ihb := ih hb
-    simp only [eval]
-    split
-    · rename_i hf; exact canon_of_isFail hf
-    · rename_i hf
-      rcases ihb with ihb | ihb
-      · rw [ihb] at hf; simp [Expr.isFail] at hf
-      · split
-        · exact Or.inr (castConst_canon ops ht _)
-        · split
-          · exact Or.inr ihb
-          · exact Or.inr ⟨ht, ihb⟩
-  | binary op t a b iha ihb =>
-    intro h
-    obtain ⟨ht, ha, hb⟩ := h
-    have iha' := iha ha
-    -- the evaluated right operand is canonical, or still the mask of `~`
-    have ihb' : eval ops b = .bad ∨ Canon (eval ops b) ∨ (op = .bxor ∧ MaskLeaf (eval ops b)) := by
-      rcases hb with hb | ⟨ho, hm⟩
-      · rcases ihb hb with h | h
-        · exact Or.inl h
-        · exact Or.inr (Or.inl h)
-      · rw [eval_maskLeaf ops hm]; exact Or.inr (Or.inr ⟨ho, hm⟩)
-    simp only [eval]
-    split
-    · rename_i hf; exact canon_of_isFail hf
-    · rename_i hfl
-      split
-      · rename_i hf; exact canon_of_isFail hf
-      · rename_i hfr
-        rcases iha' with iha' | iha'
-        · rw [iha'] at hfl; simp [Expr.isFail] at hfl
-        · rcases ihb' with ihb' | ihb'
-          · rw [ihb'] at hfr; simp [Expr.isFail] at hfr
-          · have hdef : Canon (.binary op t (eval ops a) (eval ops b)) := ⟨ht, iha', ihb'⟩
-            split
-            · -- add
-              rcases ihb' with ihb' | ⟨ho, _⟩
-              · exact evalAddSub_canon ops ht iha' ihb'
-              · cases ho
-            · rcases ihb' with ihb' | ⟨ho, _⟩
-              · exact evalAddSub_canon ops ht iha' ihb'
-              · cases ho
-            · -- lor / land
-              split
-              · split
-                · split
-                  · exact Or.inr ⟨ht, isCanon_b2n ht _⟩
-                  · exact Or.inr hdef
-                · exact Or.inr ⟨ht, isCanon_b2n ht _⟩
-              · exact Or.inr hdef
-            · split
-              · split
-                · split
-                  · exact Or.inr ⟨ht, isCanon_b2n ht _⟩
-                  · exact Or.inr hdef
-                · exact Or.inr ⟨ht, isCanon_b2n ht _⟩
-              · exact Or.inr hdef
-            · split
-              · split
-                · rename_i u hf; exact Or.inr ⟨ht, foldBin_isCanon ops ht hf⟩
-                · exact Or.inr hdef
-                · exact Or.inl rfl
-              · exact Or.inr hdef
-
-end
-
-/-- value denoted by the 64-bit pattern `u` of a constant whose type is signed / unsigned. -/
-def valOf (sg : Bool) (u : Nat) : Int := if sg then toI u else (u : Int)
-
-/-- The integer fragment: constants, enum constants, unary minus, casts and binary operators,
-every node of integer type. -/
-def IntFrag : Expr → Prop
-  | .const t _ => t.isInt = true
-  | .enumc t _ => t.isInt = true
-  | .unary op t b => op = .neg ∧ t.isInt = true ∧ IntFrag b
-  | .cast t b => t.isInt = true ∧ IntFrag b
-  | .binary _ t l r => t.isInt = true ∧ IntFrag l ∧ IntFrag r
-  | _ => False
-
-/-- C11 value of an expression of the integer fragment (`none`: undefined behaviour, or not
-typed the way `mkbinaryexpr`/`unaryexpr` type their nodes: both operands of an arithmetic or
-comparison operator have the common type, the result of a comparison or logical operator is
-`int`, the result of a shift has the type of the promoted left operand). -/
-def evalC : Expr → Option Int
-  | .const (.int _ sg) u => some (valOf sg u)
-  | .enumc (.int _ sg) u => some (valOf sg u)
-  | .unary .neg (.int sz sg) b =>
-    if b.ty = .int sz sg then (evalC b).bind (un .neg (ityOf sz sg)) else none
-  | .cast (.int sz sg) b => (evalC b).map (wrap (ityOf sz sg))
-  | .binary op (.int sz sg) l r =>
-    match l.ty, r.ty with
-    | .int lsz lsg, .int rsz rsg =>
-      if op = .lor ∨ op = .land then
-        (if sz = 4 ∧ sg = true then
-          (evalC l).bind fun a => if op = .lor then lorSC a (evalC r) else landSC a (evalC r)
-         else none)
-      else if (op.isShift = true ∨ (rsz = lsz ∧ rsg = lsg)) ∧
-          Ty.int sz sg = tyOf (binResTy op (ityOf lsz lsg)) then
-        (if op = .bxor ∧ r = .const (.int rsz rsg) (W - 1) then
-          (evalC l).bind (un .bnot (ityOf lsz lsg))        -- `~l`, as `unaryexpr` builds it
-         else (evalC l).bind fun a => (evalC r).bind fun b => bin op (ityOf lsz lsg) a b)
-      else none
-    | _, _ => none
-  | _ => none
-
-theorem valOf_repr64 {sz : Nat} {sg : Bool} (h : (Ty.int sz sg).Wf) {v : Int}
-    (hv : InRange (ityOf sz sg) v) : valOf sg (repr64 (ityOf sz sg) v) = v := by
-  have ha := ityOf_arith h
-  cases sg
-  · simp only [valOf, Bool.false_eq_true, if_false]; exact repr64_unsigned ha hv rfl
-  · simp only [valOf, if_true]; exact toI_repr64 ha hv rfl
-
-theorem canon_ty_wf {e : Expr} (hc : Canon e) (hi : IntFrag e) : e.ty.Wf := by
-  cases e <;> simp only [IntFrag] at hi <;> first | exact hc.1 | exact hi.elim
-
-section
-variable {F : Type} (ops : FloatOps F)
-
-theorem isInt_iff {t : Ty} : t.isInt = true ↔ ∃ sz sg, t = .int sz sg := by
-  cases t <;> simp [Ty.isInt]
-
-theorem evalAddSub_intFrag {op : BinOp} {ty : Ty} {l r : Expr} (hop : op = .add ∨ op = .sub)
-    (ht : ty.isInt = true) (hl : IntFrag l) (hr : IntFrag r) :
-    IntFrag (evalAddSub ops op ty l r) ∧ (evalAddSub ops op ty l r).ty = ty := by
-  have hdef : IntFrag (.binary op ty l r) ∧ (Expr.binary op ty l r).ty = ty := ⟨⟨ht, hl, hr⟩, rfl⟩
-  unfold evalAddSub
-  simp only
-  split
-  · rename_i rty ru hr1
-    split
-    · rename_i lty lu hl1
-      have hlty : lty.isInt = true := by
-        have : IntFrag (Expr.const lty lu) := by rw [← hl1]; split <;> assumption
-        exact this
-      obtain ⟨lsz, lsg, rfl⟩ := isInt_iff.1 hlty
-      have : ∃ u, binary ops op (.int lsz lsg) lu ru ty = some u := by
-        rcases hop with rfl | rfl <;> simp [binary, binaryRaw]
-      obtain ⟨u, hu⟩ := this
-      rw [hu]; exact ⟨ht, rfl⟩
-    · rename_i ll c1ty c1 hl1
-      have : IntFrag (Expr.binary .add .ptr ll (.const c1ty c1)) := by rw [← hl1]; split <;> assumption
-      simp [IntFrag, Ty.isInt] at this
-    · exact hdef
-  · exact hdef
-
-theorem castConst_intFrag {lsz : Nat} {lsg : Bool} {t : Ty} (ht : t.isInt = true) (l : Nat) :
-    IntFrag (castConst ops (.int lsz lsg) t l) ∧ (castConst ops (.int lsz lsg) t l).ty = t := by
-  obtain ⟨sz, sg, rfl⟩ := isInt_iff.1 ht
-  exact ⟨ht, rfl⟩
-
-theorem eval_intFrag (e : Expr) : IntFrag e → IntFrag (eval ops e) ∧ (eval ops e).ty = e.ty := by
-  induction e with
-  | const t u => intro h; exact ⟨by simpa [eval] using h, by simp [eval, Expr.ty]⟩
-  | enumc t u => intro h; exact ⟨by simpa [eval, IntFrag] using h, by simp [eval, Expr.ty]⟩
-  | obj t n => intro h; exact h.elim
-  | str t i => intro h; exact h.elim
-  | compound t st i => intro h; exact h.elim
-  | «opaque» t i => intro h; exact h.elim
-  | cond t c a b _ _ _ => intro h; exact h.elim
-  | error => intro h; exact h.elim
-  | bad => intro h; exact h.elim
-  | unary op t base ih =>
-    rintro ⟨rfl, ht, hb⟩
-    obtain ⟨ih1, ih2⟩ := ih hb
-    have hnf : (eval ops base).isFail = false := by
-      cases h : eval ops base <;> simp [Expr.isFail] <;> (rw [h] at ih1; exact ih1.elim)
-    simp only [eval, hnf, Bool.false_eq_true, if_false]
-    split
-    · exact ⟨ht, rfl⟩
-    · exact ⟨⟨rfl, ht, ih1⟩, rfl⟩
-  | cast t base ih =>
-    rintro ⟨ht, hb⟩
-    obtain ⟨ih1, ih2⟩ := ih hb
-    have hnf : (eval ops base).isFail = false := by
-      cases h : eval ops base <;> simp [Expr.isFail] <;> (rw [h] at ih1; exact ih1.elim)
-    simp only [eval, hnf, Bool.false_eq_true, if_false]
-    split
-    · rename_i lty u hl
-      rw [hl] at ih1
-      obtain ⟨lsz, lsg, rfl⟩ := isInt_iff.1 ih1
-      exact castConst_intFrag ops ht u
-    · split
-      · rename_i hp
-        obtain ⟨sz, sg, hty⟩ := isInt_iff.1 (show (eval ops base).ty.isInt = true by
-          cases h : eval ops base <;> rw [h] at ih1 <;> simp only [IntFrag] at ih1 <;>
-            first | exact ih1.elim | exact ih1 | exact ih1.1 | exact ih1.2.1)
-        rw [hty] at hp; simp at hp
-      · exact ⟨⟨ht, ih1⟩, rfl⟩
-  | binary op t a b iha ihb =>
-    rintro ⟨ht, ha, hb⟩
-    obtain ⟨iha1, iha2⟩ := iha ha
-    obtain ⟨ihb1, ihb2⟩ := ihb hb
-    have hnfa : (eval ops a).isFail = false := by
-      cases h : eval ops a <;> simp [Expr.isFail] <;> (rw [h] at iha1; exact iha1.elim)
-    have hnfb : (eval ops b).isFail = false := by
-      cases h : eval ops b <;> simp [Expr.isFail] <;> (rw [h] at ihb1; exact ihb1.elim)
-    have hdef : IntFrag (.binary op t (eval ops a) (eval ops b)) ∧
-        (Expr.binary op t (eval ops a) (eval ops b)).ty = (Expr.binary op t a b).ty :=
-      ⟨⟨ht, iha1, ihb1⟩, rfl⟩
-    simp only [eval, hnfa, hnfb, Bool.false_eq_true, if_false]
-    split
-    · exact evalAddSub_intFrag ops (Or.inl rfl) ht iha1 ihb1
-    · exact evalAddSub_intFrag ops (Or.inr rfl) ht iha1 ihb1
-    · split
-      · split
-        · split
-          · exact ⟨ht, rfl⟩
-          · exact hdef
-        · exact ⟨ht, rfl⟩
-      · exact hdef
-    · split
-      · split
-        · split
-          · exact ⟨ht, rfl⟩
-          · exact hdef
-        · exact ⟨ht, rfl⟩
-      · exact hdef
-    · rename_i hop1 hop2 hop3 hop4
-      split
-      · rename_i lty lu rty ru hl hr
-        rw [hl] at iha1
-        obtain ⟨lsz, lsg, rfl⟩ := isInt_iff.1 iha1
-        split
-        · exact ⟨ht, rfl⟩
-        · exact hdef
-        · rename_i hf
-          exact absurd hf (foldBin_no_hostUB ops op ⟨fun h => hop3 h, fun h => hop4 h⟩ lsz lsg lu ru t)
-      · exact hdef
-
-end
-
-section
-variable {F : Type} (ops : FloatOps F)
-
-/-- shape of the conclusion of `eval_correct`. -/
-def FoldsTo (e : Expr) (v : Int) : Prop :=
-  ∃ sz sg, e.ty = .int sz sg ∧ InRange (ityOf sz sg) v ∧
-    eval ops e = .const (.int sz sg) (repr64 (ityOf sz sg) v)
-
-theorem divGuard_false_of_defined {t : IntTy} (ht : t.Arith) {op : BinOp} (hop : op = .div ∨ op = .mod)
-    {a b v : Int} (ha : InRange t a) (hb : InRange t b) (h : bin op t a b = some v) :
-    divGuard (tyOf t) (repr64 t a) (repr64 t b) = false := by
-  have hb0 : b ≠ 0 := by
-    rcases hop with rfl | rfl <;> simp only [bin] at h <;> (intro e; simp [e] at h)
-  have hr0 : ¬ repr64 t b = 0 := fun e => hb0 ((repr64_eq_zero ht hb).1 e)
-  rw [tyOf_arith ht]
-  simp only [divGuard, Ty.isInt, Ty.isSigned, Bool.true_and, decide_eq_false hr0, Bool.false_or]
-  cases hs : t.signed
-  · simp
-  · simp only [Bool.true_and, toI_repr64 ht ha hs, toI_repr64 ht hb hs]
-    have hr : InRange t (Int.tdiv a b) := by
-      rcases hop with rfl | rfl <;> simp only [bin, if_neg hb0] at h
-      · exact (arith_signed hs h).2
-      · apply Classical.byContradiction
-        intro hn; rw [if_pos ⟨hs, hn⟩] at h; cases h
-    have := no_overflow_of_inRange ht hr hs
-    by_cases h1 : b = -1 <;> by_cases h2 : a = -(2 ^ 63) <;> simp [h1, h2]
-    · exact this ⟨h2, h1⟩
-    · omega
-
-theorem foldBin_correct {t tr : IntTy} (ht : t.Arith) (htr : tr.Arith) (op : BinOp)
-    (hop : op ≠ .lor ∧ op ≠ .land) (hty : op.isShift = false → tr = t)
-    {a b v : Int} (ha : InRange t a) (hb : InRange tr b) (h : bin op t a b = some v) :
-    foldBin ops op (tyOf t) (repr64 t a) (repr64 tr b) (tyOf (binResTy op t))
-      = .folded (repr64 (binResTy op t) v) := by
-  have hbin := binary_correct ops ht htr op hop hty ha hb h
-  have hres : (binResTy op t).Valid := by
-    simp only [binResTy]; split
-    · exact Or.inr int_arith
-    · exact Or.inr ht
-  have hvr : InRange (binResTy op t) v := by
-    refine bin_inRange ht op ha (fun hs => ?_) h
-    cases hty hs; exact hb
-  rw [wrap_of_inRange hres hvr] at hbin
-  simp only [foldBin]
-  split
-  · rename_i hg
-    obtain ⟨ho, hg⟩ := hg
-    have hs : op.isShift = false := by rcases ho with rfl | rfl <;> rfl
-    cases hty hs
-    rw [divGuard_false_of_defined ht ho ha hb h] at hg
-    cases hg
-  · rw [hbin]
-
-theorem not_isFail_of_const {e : Expr} {t : Ty} {u : Nat} (h : e = .const t u) : e.isFail = false := by
-  subst h; rfl
-
-theorem tyOf_binResTy {op : BinOp} {lsz : Nat} {lsg : Bool} (h : (Ty.int lsz lsg).Wf) :
-    tyOf (binResTy op (ityOf lsz lsg)) = if op.isCmp then .int 4 true else .int lsz lsg := by
-  simp only [binResTy]
-  split
-  · rfl
-  · exact tyOf_ityOf h
-
-theorem ityOf_int : ityOf 4 true = IntTy.int := rfl
-
-theorem eval_correct (e : Expr) : IntFrag e → Canon e → ∀ v, evalC e = some v → FoldsTo ops e v := by
-  induction e with
-  | obj t n => intro h; exact h.elim
-  | str t i => intro h; exact h.elim
-  | compound t st i => intro h; exact h.elim
-  | «opaque» t i => intro h; exact h.elim
-  | cond t c a b _ _ _ => intro h; exact h.elim
-  | error => intro h; exact h.elim
-  | bad => intro h; exact h.elim
-  | const t u =>
-    intro hi hc v hv
-    obtain ⟨sz, sg, rfl⟩ := isInt_iff.1 hi
-    obtain ⟨hw, v', hr, rfl⟩ := hc
-    simp only [evalC, valOf_repr64 hw hr, Option.some.injEq] at hv
-    subst hv
-    exact ⟨sz, sg, rfl, hr, by simp [eval]⟩
-  | enumc t u =>
-    intro hi hc v hv
-    obtain ⟨sz, sg, rfl⟩ := isInt_iff.1 hi
-    obtain ⟨hw, v', hr, rfl⟩ := hc
-    simp only [evalC, valOf_repr64 hw hr, Option.some.injEq] at hv
-    subst hv
-    exact ⟨sz, sg, rfl, hr, by simp [eval]⟩
-  | unary op t base ih =>
-    rintro ⟨rfl, hi, hb⟩ ⟨hw, hcb⟩ v hv
-    obtain ⟨sz, sg, rfl⟩ := isInt_iff.1 hi
-    simp only [evalC] at hv
-    split at hv
-    · rename_i hty
-      cases hev : evalC base with
-      | none => rw [hev] at hv; cases hv
-      | some a =>
-        rw [hev, Option.bind_some] at hv
-        obtain ⟨sz', sg', hty', hra, he⟩ := ih hb hcb a hev
-        rw [hty] at hty'; cases hty'
-        have har := ityOf_arith hw
-        refine ⟨sz, sg, rfl, ?_, ?_⟩
-        · simp only [un] at hv; exact arith_inRange (Or.inr har) hv
-        · have := unaryNeg_correct ops har hv
-          rw [tyOf_ityOf hw] at this
-          have hwv : wrap (ityOf sz sg) v = v := by
-            simp only [un] at hv
-            exact wrap_of_inRange (Or.inr har) (arith_inRange (Or.inr har) hv)
-          rw [hwv] at this
-          simp only [eval, he, Expr.isFail, Bool.false_eq_true, if_false, this]
-    · cases hv
-  | cast t base ih =>
-    rintro ⟨hi, hb⟩ ⟨hw, hcb⟩ v hv
-    obtain ⟨sz, sg, rfl⟩ := isInt_iff.1 hi
-    simp only [evalC] at hv
-    cases hev : evalC base with
-    | none => rw [hev] at hv; cases hv
-    | some a =>
-      rw [hev, Option.map_some] at hv; cases hv
-      obtain ⟨sz', sg', hty', hra, he⟩ := ih hb hcb a hev
-      have har := ityOf_arith hw
-      refine ⟨sz, sg, rfl, wrap_inRange (Or.inr har) a, ?_⟩
-      simp only [eval, he, Expr.isFail, Bool.false_eq_true, if_false, castConst_int_int]
-      have := cast_ofI har a
-      rw [ityOf_bits_div] at this
-      rw [← this]; rfl
-  | binary op t l r ihl ihr =>
-    rintro ⟨hi, hil, hir⟩ ⟨hw, hcl, hcr⟩ v hv
-    obtain ⟨sz, sg, rfl⟩ := isInt_iff.1 hi
-    simp only [evalC] at hv
-    split at hv
-    case h_2 => cases hv
-    rename_i lsz lsg rsz rsg hlty hrty
-    have hlw : (Ty.int lsz lsg).Wf := by rw [← hlty]; exact canon_ty_wf hcl hil
-    have hla := ityOf_arith hlw
-    have hnfr : (eval ops r).isFail = false := by
-      have := (eval_intFrag ops r hir).1
-      cases h : eval ops r <;> simp [Expr.isFail] <;> (rw [h] at this; exact this.elim)
-    split at hv
-    · -- `||`, `&&`
-      rename_i hop
-      split at hv
-      case isFalse => cases hv
-      rename_i hty
-      obtain ⟨rfl, rfl⟩ := hty
-      cases hel : evalC l with
-      | none => rw [hel] at hv; cases hv
-      | some a =>
-        rw [hel, Option.bind_some] at hv
-        obtain ⟨sz', sg', hty', hra, he⟩ := ihl hil hcl a hel
-        rw [hlty] at hty'; cases hty'
-        have hist : istrue ops (.int lsz lsg) (repr64 (ityOf lsz lsg) a) = decide (a ≠ 0) := by
-          have := istrue_int ops (Or.inr hla) hra
-          rwa [tyOf_ityOf hlw] at this
-        -- the right operand, when it is needed
-        have hright : ∀ b, evalC r = some b → ∃ rty ru, eval ops r = .const rty ru ∧
-            istrue ops rty ru = decide (b ≠ 0) := by
-          intro b hb
-          have hcr' : Canon r := by
-            rcases hcr with h | ⟨ho, _⟩
-            · exact h
-            · rcases hop with h | h <;> rw [h] at ho <;> cases ho
-          obtain ⟨rsz', rsg', hrt', hrb, her⟩ := ihr hir hcr' b hb
-          rw [hrty] at hrt'; cases hrt'
-          have hrw : (Ty.int rsz rsg).Wf := by rw [← hrty]; exact canon_ty_wf hcr' hir
-          refine ⟨_, _, her, ?_⟩
-          have := istrue_int ops (Or.inr (ityOf_arith hrw)) hrb
-          rwa [tyOf_ityOf hrw] at this
-        refine ⟨4, true, rfl, ?_, ?_⟩
-        · split at hv
-          · simp only [lorSC] at hv
-            split at hv
-            · cases hv; decide
-            · cases her : evalC r with
-              | none => rw [her] at hv; cases hv
-              | some b => rw [her] at hv; cases hv; exact b2i_inRange _
-          · simp only [landSC] at hv
-            split at hv
-            · cases hv; decide
-            · cases her : evalC r with
-              | none => rw [her] at hv; cases hv
-              | some b => rw [her] at hv; cases hv; exact b2i_inRange _
-        · rcases hop with rfl | rfl
-          · simp only [if_true, lorSC] at hv
-            simp only [eval, not_isFail_of_const he, hnfr, Bool.false_eq_true, if_false]
-            simp only [he, hist]
-            by_cases ha0 : a = 0
-            · subst ha0
-              simp only [ne_eq, not_true, if_false] at hv
-              cases her : evalC r with
-              | none => rw [her] at hv; cases hv
-              | some b =>
-                rw [her] at hv; cases hv
-                obtain ⟨rty, ru, her', hist'⟩ := hright b her
-                simp [her', hist', ityOf_int, repr64_b2i]
-            · simp only [ne_eq, ha0, not_false_eq_true, if_true] at hv
-              cases hv
-              simp [ha0, ityOf_int]; decide
-          · simp only [landSC] at hv
-            simp only [eval, not_isFail_of_const he, hnfr, Bool.false_eq_true, if_false]
-            simp only [he, hist]
-            by_cases ha0 : a = 0
-            · subst ha0
-              simp at hv; cases hv
-              simp [ityOf_int]; decide
-            · simp only [ha0, if_false] at hv
-              cases her : evalC r with
-              | none => rw [her] at hv; simp at hv
-              | some b =>
-                rw [her] at hv; simp at hv; cases hv
-                obtain ⟨rty, ru, her', hist'⟩ := hright b her
-                simp [ha0, her', hist', ityOf_int, repr64_b2i]
-    · rename_i hop
-      have hop' : op ≠ .lor ∧ op ≠ .land := ⟨fun h => hop (Or.inl h), fun h => hop (Or.inr h)⟩
-      split at hv
-      case isFalse => cases hv
-      rename_i htyp
-      obtain ⟨hshape, hres⟩ := htyp
-      split at hv
-      · -- `~l`
-        rename_i hmask
-        obtain ⟨rfl, rfl⟩ := hmask
-        have hres' : Ty.int sz sg = Ty.int lsz lsg := by rw [hres, tyOf_binResTy hlw]; rfl
-        cases hres'
-        cases hel : evalC l with
-        | none => rw [hel] at hv; cases hv
-        | some a =>
-          rw [hel, Option.bind_some] at hv
-          obtain ⟨sz', sg', hty', hra, he⟩ := ihl hil hcl a hel
-          rw [hlty] at hty'; cases hty'
-          have hvr : InRange (ityOf sz sg) v := by
-            simp only [un] at hv; cases hv; exact wrap_inRange (Or.inr hla) _
-          have := bnot_correct ops hla hv
-          rw [tyOf_ityOf hlw, wrap_of_inRange (Or.inr hla) hvr] at this
-          refine ⟨sz, sg, rfl, hvr, ?_⟩
-          simp only [eval, not_isFail_of_const he, Bool.false_eq_true, if_false]
-          simp [he, this, Expr.isFail]
-      · rename_i hnmask
-        have hcr' : Canon r := by
-          rcases hcr with h | ⟨ho, t', hr'⟩
-          · exact h
-          · exfalso; apply hnmask
-            subst hr'
-            simp only [Expr.ty] at hrty
-            subst hrty
-            exact ⟨ho, rfl⟩
-        have hrw : (Ty.int rsz rsg).Wf := by rw [← hrty]; exact canon_ty_wf hcr' hir
-        have hra' := ityOf_arith hrw
-        cases hel : evalC l with
-        | none => rw [hel] at hv; cases hv
-        | some a =>
-          rw [hel, Option.bind_some] at hv
-          cases her : evalC r with
-          | none => rw [her] at hv; cases hv
-          | some b =>
-            rw [her, Option.bind_some] at hv
-            obtain ⟨sz', sg', hty', hra, he⟩ := ihl hil hcl a hel
-            rw [hlty] at hty'; cases hty'
-            obtain ⟨rsz', rsg', hrt', hrb, her'⟩ := ihr hir hcr' b her
-            rw [hrty] at hrt'; cases hrt'
-            have hty : op.isShift = false → ityOf rsz rsg = ityOf lsz lsg := by
-              intro hs
-              rcases hshape with h | ⟨h1, h2⟩
-              · rw [hs] at h; cases h
-              · rw [h1, h2]
-            have hf := foldBin_correct ops hla hra' op hop' hty hra hrb hv
-            rw [tyOf_ityOf hlw, ← hres] at hf
-            have hvr : InRange (binResTy op (ityOf lsz lsg)) v := by
-              refine bin_inRange hla op hra (fun hs => ?_) hv
-              rw [← hty hs]; exact hrb
-            -- the result type, as an `IntTy`
-            have hrt : binResTy op (ityOf lsz lsg) = ityOf sz sg := by
-              rw [tyOf_binResTy hlw] at hres
-              simp only [binResTy]
-              split at hres <;> rename_i hc <;> simp only [hc, if_true, Bool.false_eq_true, if_false] <;>
-                cases hres <;> rfl
-            rw [hrt] at hf hvr
-            refine ⟨sz, sg, rfl, hvr, ?_⟩
-            have hb2 : binary ops op (.int lsz lsg) (repr64 (ityOf lsz lsg) a) (repr64 (ityOf rsz rsg) b)
-                (.int sz sg) = some (repr64 (ityOf sz sg) v) := by
-              simp only [foldBin] at hf
-              split at hf
-              · cases hf
-              · split at hf
-                · rename_i u hu; cases hf; exact hu
-                · cases hf
-            simp only [eval, not_isFail_of_const he, not_isFail_of_const her', Bool.false_eq_true, if_false]
-            simp only [he, her']
-            cases op <;> simp only [hf] <;> first
-              | exact absurd rfl hop'.1
-              | exact absurd rfl hop'.2
-              | simp [evalAddSub, Expr.isBinary, hb2]
-
-end
-
 end CprocVerif.Eval
